@@ -147,7 +147,12 @@ def work(cfg):
     if fam == "ias15fixed":
         return 8 * 4
     if fam == "whfast":
-        return 2 + (4 if cfg_get(cfg, "ri_whfast.kernel", "default") == "composition" else 0)
+        w = 2 + (4 if cfg_get(cfg, "ri_whfast.kernel", "default") == "composition" else 0)
+        if cfg_get(cfg, "ri_whfast.safe_mode", 1):
+            # correctors and their inverses are applied around every step: 3 Kepler/kick stages per corrector stage
+            w += 2 * (3 * {0: 0, 3: 2, 5: 4, 7: 6, 11: 10, 17: 16}[cfg_get(cfg, "ri_whfast.corrector", 0)]
+                      + (12 if cfg_get(cfg, "ri_whfast.corrector2", 0) else 0))
+        return w
     return 2
 
 
@@ -243,9 +248,9 @@ def floor_for(sysd, cfg, nsteps):
     return f
 
 
-def state_error(sim, ref, n=None):
+def state_error(sim, ref, n=None, LV=None):
     from ..oracles import c01_ref
-    L, V = scales(ref)
+    L, V = LV(ref) if LV else scales(ref)
     E = 0.0
     ps = sim.particles
     worst = None
@@ -274,7 +279,7 @@ def moved(sysd, ref):
 NSEG = 3     # checkpoints per run: E_k is the maximum over the states at T/3, 2T/3 and T
 
 
-def fixed_levels(sysd, cfg, dt0, n0, backward, levels=LEVELS, cache=False, ref=None, mk=None, rspec=None):
+def fixed_levels(sysd, cfg, dt0, n0, backward, levels=LEVELS, cache=False, ref=None, mk=None, rspec=None, LV=None):
     """n0 must be a multiple of NSEG.  Returns (Es, refs, tdev): Es[k] = max over the NSEG checkpoints of the scaled
     error at level k (the simulation is synchronized at each checkpoint and continued: taking the maximum over
     three epochs fills the dips that a sign change of the leading error term produces at a single epoch);
@@ -292,9 +297,13 @@ def fixed_levels(sysd, cfg, dt0, n0, backward, levels=LEVELS, cache=False, ref=N
         sim.dt = sgn * dt0 / 2 ** k
         E = 0.0
         for s in range(NSEG):
-            sim.steps(seg * 2 ** k)
-            sim.synchronize()
-            e, _ = state_error(sim, ref[s])
+            try:
+                sim.steps(seg * 2 ** k)
+                sim.synchronize()
+            except RuntimeError as ex:      # library error message on a documented configuration and a regular system
+                raise Violation("%s %s: the integrator reports an error on valid input: %s"
+                                % (cfg.get("integrator", cfg.get("family")), short(cfg), ex), dt=sim.dt)
+            e, _ = state_error(sim, ref[s], LV=LV)
             E = max(E, e)
             nk = seg * (s + 1) * 2 ** k
             tdev = max(tdev, abs(sim.t - times[s]) / (abs(times[s]) * nk * EPS))
@@ -662,7 +671,10 @@ def run_adaptive(case, ctx):
             if count[0] > STEP_CAP:
                 sim.stop()
         sim.heartbeat = hb
-        sim.integrate(T)
+        try:
+            sim.integrate(T)
+        except RuntimeError as ex:
+            raise Violation("%s eps=%g: the integrator reports an error on valid input: %s" % (fam, eps, ex))
         if count[0] > STEP_CAP:
             raise Collapse()
         if sim.t != T:
@@ -765,7 +777,20 @@ def run_ode(case, ctx):
         ode.y[0] = u0
         ode.y[1] = ud0
         sim.dt = sgn * (sysd["P_min"] / 64.0 if nb == "whfast" else 0.01 * sysd["P_min"])
-        sim.integrate(T)
+        count = [0]
+
+        def hb(_):
+            count[0] += 1
+            if count[0] > STEP_CAP:
+                sim.stop()
+        sim.heartbeat = hb
+        try:
+            sim.integrate(T)
+        except RuntimeError as ex:
+            raise Violation("ode/%s eps=%g: the integrator reports an error on valid input: %s" % (nb, eps, ex))
+        if count[0] > STEP_CAP:
+            raise Violation("ode/%s eps=%g: more than %d steps for %d inner periods (step size collapsed to %r)"
+                            % (nb, eps, STEP_CAP, case["norb"], sim.dt))
         if sim.t != T:
             raise Violation("ode/%s: integrate(%r) returned at t=%r" % (nb, T, sim.t))
         U = max(abs(ref["u"][0][0]), abs(ref["u"][1][0]) / w, abs(u0), abs(ud0) / w)
@@ -843,7 +868,12 @@ def run_sei(case, ctx):
             sim.gravity = "none"
         return sim
     cfg = {"family": "sei", "set": []}
-    Es, refs, tdev = fixed_levels(sysd, cfg, dt0, n0, case["backward"], mk=mk,
+    def LV(ref):
+        # in the rotating frame a particle can be (nearly) at rest: velocities are scaled by at least OMEGA*L
+        L, V = scales(ref)
+        L = max(L, 1.0)
+        return L, max(V, OM * L)
+    Es, refs, tdev = fixed_levels(sysd, cfg, dt0, n0, case["backward"], mk=mk, LV=LV,
                                   rspec=ref_spec(sysd, {"mode": "hill", "OMEGA": OM, "OMEGAZ": OMZ}))
     H = hierarchy(sysd) if len(sysd["particles"]) > 1 else 1.0
     floors = [max(FLOOR, KR * EPS * 10 * H * math.sqrt(2.0 * n0 * 2 ** k)) for k in range(len(Es))]
@@ -938,6 +968,127 @@ def run_whfast512(case, ctx):
 
 
 # ---------------------------------------------------------------------------------------------------------------
+# TRACE through pericentre switches (eccentric inner planet, steps coarse enough that S_peri fires)
+
+TRACE_FULLBS = "C01-trace-fullbs-overshoot"
+TRACE_K = 10.0
+TRACE_K_PARTIAL = 100.0
+
+
+@st.composite
+def trace_peri_case(draw, tier="quick"):
+    e = draw(S.floats(0.5, 0.9))
+    m1 = draw(S.logfloats(1e-6, 1e-3))
+    m2 = draw(S.logfloats(1e-6, 1e-3))
+    G = draw(st.sampled_from([1.0, 4 * math.pi ** 2]))
+    a2 = draw(S.floats(4.0, 6.0))
+    ang = [draw(S.angles) for _ in range(6)]
+    inc = draw(S.floats(0.0, 0.3))
+    parts = [{"m": 1.0, "x": 0.0, "y": 0.0, "z": 0.0, "vx": 0.0, "vy": 0.0, "vz": 0.0}]
+    s = S.el2cart(G * (1.0 + m1), 1.0, e, inc, ang[0], ang[1], ang[2])
+    parts.append({"m": m1, "x": s[0], "y": s[1], "z": s[2], "vx": s[3], "vy": s[4], "vz": s[5]})
+    s = S.el2cart(G * (1.0 + m1 + m2), a2, 0.05, 0.05, ang[3], ang[4], ang[5])
+    parts.append({"m": m2, "x": s[0], "y": s[1], "z": s[2], "vx": s[3], "vy": s[4], "vz": s[5]})
+    M = sum(p["m"] for p in parts)
+    for k in ("x", "y", "z", "vx", "vy", "vz"):
+        c = sum(p["m"] * p[k] for p in parts) / M
+        for p in parts:
+            p[k] -= c
+    P = 2 * math.pi / math.sqrt(G * (1.0 + m1))
+    return {"system": {"G": G, "particles": parts, "P_min": P, "P_max": P * a2 ** 1.5},
+            "peri_mode": draw(st.sampled_from(S.TRACE_PERI)), "div": draw(st.sampled_from([16, 24, 32, 48])),
+            "norb": draw(st.sampled_from([2, 3])), "backward": draw(st.sampled_from([False, False, True])), "e": e}
+
+
+def run_trace_peri(case, ctx):
+    """TRACE integrates the steps flagged by the pericentre criterion with BS (whole system or Kepler part) or IAS15
+    instead of Wisdom-Holman.  Switching itself costs accuracy (measured on the repaired tree: 1e-3 against 2e-5
+    without switching at e=0.6, dt=P/32, identical for the three modes), so no bound relative to plain WH is
+    asserted.  Asserted, with every error measured against the reference:
+      modes      FULL_BS and FULL_IAS15 flag the same steps and integrate them to tolerance: their errors are within
+                 a factor TRACE_K of each other (PARTIAL_BS: within TRACE_K_PARTIAL of the FULL modes);
+      direction  a run with dt<0 from z has the same error as the run with dt>0 from the velocity-reversed state
+                 (the equations are even in the velocities; reference by symmetry) within a factor TRACE_K;
+      time       the run ends at n*dt with finite coordinates."""
+    import warnings
+    from ..oracles import c01_ref
+    warnings.simplefilter("ignore")
+    sysd = case["system"]
+    backward = case["backward"]
+    if backward and ctx.finding_open(TRACE_BACKWARD):
+        ctx.excluded(TRACE_BACKWARD)
+        return
+    sgn = -1.0 if backward else 1.0
+    dt = snap(sysd["P_min"] / case["div"])
+    n = NSEG * max(1, int(round(case["norb"] * case["div"] / NSEG)))
+    times = [sgn * dt * (n // NSEG) * (s + 1) for s in range(NSEG)]
+    refs = c01_ref.reference(ref_spec(sysd), times)
+
+    def flip(sd):
+        d = dict(sd)
+        d["particles"] = [dict(p, vx=-p["vx"], vy=-p["vy"], vz=-p["vz"]) for p in sd["particles"]]
+        return d
+
+    def flipref(r):
+        return {"p": [[c if i < 3 else [-c[0], -c[1]] for i, c in enumerate(pp)] for pp in r["p"]]}
+
+    def run(pm, sd, sg, rf):
+        sim = setup(sd, trace_cfg(pm, "default"))
+        sim.dt = sg * dt
+        E = 0.0
+        switched = 0
+        for s in range(NSEG):
+            for _ in range(n // NSEG):
+                sim.steps(1)
+                switched += 1 if sim.ri_trace._current_C else 0
+            sim.synchronize()
+            e, _ = state_error(sim, rf[s])
+            E = max(E, e)
+        tend = sg * dt * n
+        if abs(sim.t - tend) > 4 * n * EPS * abs(tend):
+            raise Violation("trace %s: %d steps of %r ended at t=%r" % (pm, n, sg * dt, sim.t))
+        return E, switched
+
+    mode = case["peri_mode"]
+    skip_fullbs = ctx.finding_open(TRACE_FULLBS)
+    if mode == "FULL_BS" and skip_fullbs:
+        ctx.excluded(TRACE_FULLBS)
+        return
+    E, nsw = run(mode, sysd, sgn, refs)
+    if nsw == 0:
+        ctx.cls("no_switch")
+        return
+    what = "trace peri_mode=%s e=%.2f dt=P/%d%s" % (mode, case["e"], case["div"], " backward" if backward else "")
+    fl = max(FLOOR, KR * EPS * hierarchy(sysd) * math.sqrt(2.0 * n)) * 100
+    others = {}
+    for pm in ("FULL_BS", "FULL_IAS15"):
+        if pm != mode and not (pm == "FULL_BS" and skip_fullbs):
+            others[pm], _ = run(pm, sysd, sgn, refs)
+    # FULL_BS and FULL_IAS15 differ only in the integrator used for the flagged steps (both to tolerance): factor
+    # TRACE_K.  PARTIAL_BS keeps the Wisdom-Holman interaction kick in flagged steps: a different scheme whose error
+    # was measured between 1/14 and 3 times the FULL error; it is only required to stay within TRACE_K_PARTIAL.
+    K = TRACE_K if mode != "PARTIAL_BS" else TRACE_K_PARTIAL
+    best = min(others.values()) if others else E
+    ctx.stat_max("E_%s/(K*E_full+floor)" % ("full" if mode != "PARTIAL_BS" else "partial"), E / (K * best + fl))
+    if mode == "PARTIAL_BS":
+        ctx.stat_max("E_partial/E_full", E / max(best, fl))
+        ctx.stat_max("E_full/E_partial", best / max(E, fl))
+    if not E <= K * best + fl:
+        raise Violation("%s: error against the true solution %.3e (pericentre switching in %d of %d steps); the FULL "
+                        "modes integrate the same steps with errors %s" % (what, E, nsw, n,
+                        ", ".join("%s %.3e" % kv for kv in sorted(others.items()))), E=E, others=others)
+    if backward:
+        Ef, _ = run(mode, flip(sysd), 1.0, [flipref(r) for r in refs])
+        ctx.stat_max("E_backward/(K*E_forward_of_reversed+floor)", E / (TRACE_K * Ef + fl))
+        if not E <= TRACE_K * Ef + fl:
+            raise Violation("%s: error %.3e with dt<0, but %.3e for the same trajectory run with dt>0 from the "
+                            "velocity-reversed state" % (what, E, Ef), E_backward=E, E_forward_reversed=Ef)
+        ctx.cls("backward")
+    ctx.cls("peri_mode:" + mode)
+    ctx.nontrivial()
+
+
+# ---------------------------------------------------------------------------------------------------------------
 
 def subs(tier):
     return [
@@ -946,6 +1097,8 @@ def subs(tier):
         Sub("adaptive", run_adaptive, strategy=adaptive_case(tier), quick=160, thorough=6400, shards_quick=8, shards_thorough=16),
         Sub("ode", run_ode, strategy=ode_case(tier), quick=48, thorough=1600, shards_quick=8, shards_thorough=16),
         Sub("sei", run_sei, strategy=sei_case(tier), quick=160, thorough=3200, shards_quick=4, shards_thorough=8),
+        Sub("trace_peri", run_trace_peri, strategy=trace_peri_case(tier), quick=120, thorough=4800, shards_quick=4,
+            shards_thorough=8),
         Sub("whfast512", run_whfast512, strategy=whfast512_case(tier), quick=96, thorough=3200, shards_quick=4,
             shards_thorough=8, variant="avx512"),
     ]
